@@ -103,6 +103,26 @@ theorem C13_conflict_rejected (ev : RawEval) {c d : Corr} {cp : List (Rat × Rat
   rw [hd] at hH
   simp only [hH]
 
+/-- **T2 (reference entropy).** Same for the reference entropy (the source giving no reference enthalpy, so that the
+entropy is the first datum compared). -/
+theorem C13_conflict_S_rejected (ev : RawEval) {c d : Corr} {cp : List (Rat × Rat)} {x y : Rat} (built : Bool)
+    (hT : c.Tref = d.Tref) (h0 : d.Tref ≠ 0) (hcp : mergeCp false c.cp c.cp d.cp = .ok cp)
+    (hv : ValidP (keys cp) d.Tref (unionRange c.range d.range))
+    (hH : d.H = none) (hc : c.S = some x) (hd : d.S = some y) (hne : isclose y x = false) :
+    update ev ⟨c, built⟩ d false = (⟨c, built⟩, some .readOnly) := by
+  have hcheck : checkValid cp d.Tref (unionRange c.range d.range) = .ok () := (checkValid_iff _ _ _).mpr hv
+  have hg := getS_at_ref ev (c := ⟨none, some y, cp, d.Tref, unionRange c.range d.range⟩) rfl hv h0
+  have hS : newS ev false c d ⟨none, some y, cp, d.Tref, unionRange c.range d.range⟩ = .error .readOnly := by
+    unfold newS
+    simp only [hd, hT, hg, hc, mergeRef, hne]
+    rfl
+  have hHn : newH ev false c d ⟨none, some y, cp, d.Tref, unionRange c.range d.range⟩ = .ok c.H := by
+    unfold newH; rw [hH]
+  unfold update
+  simp only [hcp]
+  unfold mergeRefs
+  simp only [hH, hd, Option.isSome_some, Option.isSome_none, Bool.or_true, Bool.false_or, if_true, hcheck, hHn, hS]
+
 /-- **T2 (heat capacity).** When the source gives, for a temperature of the target's table, a different value, the
 merge is rejected with `ReadOnlyDataError` and the target is unchanged — whatever else the two correlations hold. -/
 theorem C13_conflict_cp_rejected (ev : RawEval) (self : Obj) (d : Corr) {T x y : Rat} (hnd : (keys d.cp).Nodup)
